@@ -8,7 +8,7 @@ MODES = ['default', 'default', 'default', 'kill', 'kill', 'mem', 'fast']
 
 
 def generate(seed, tier='quick', index=0):
-    return dc.generate(PROPERTY, seed, tier, MODES)
+    return dc.generate(PROPERTY, seed, tier, MODES, constraint_share=0.25)
 
 
 def execute(trace):
